@@ -16,8 +16,13 @@ import (
 // overlay, regenerates the obligations of the property's functions and reports whether at least
 // one obligation fails. It never alters /repo and never turns into a VIOLATION: a missed change
 // is a weakness of the check, not of the tree, and is recorded in the evidence file.
+var selfTestOnly []string // when set: exactly these patches (gvc check -mutant)
+
 func runSelfTests(ps *PropSpec, root, repo string, patterns []string, tags string, timeoutS int, kfs []knownFinding) []map[string]any {
 	var diffs []string
+	if len(selfTestOnly) > 0 {
+		return runSelfTestDiffs(selfTestOnly, ps, root, repo, patterns, tags, timeoutS, kfs)
+	}
 	if m, _ := filepath.Glob(filepath.Join(root, "seeded", ps.ID, "patch.diff")); len(m) > 0 {
 		diffs = append(diffs, m...)
 	}
@@ -29,6 +34,10 @@ func runSelfTests(ps *PropSpec, root, repo string, patterns []string, tags strin
 		sort.Strings(m)
 		diffs = append(diffs, m...)
 	}
+	return runSelfTestDiffs(diffs, ps, root, repo, patterns, tags, timeoutS, kfs)
+}
+
+func runSelfTestDiffs(diffs []string, ps *PropSpec, root, repo string, patterns []string, tags string, timeoutS int, kfs []knownFinding) []map[string]any {
 	var out []map[string]any
 	reFile := regexp.MustCompile(`(?m)^\+\+\+ b/(\S+)`)
 	for _, d := range diffs {
